@@ -47,7 +47,18 @@ func Restrict(l *Lin, guards map[string]bool) *Lin {
 				if v {
 					side = t.A.IteT
 				}
-				r = linAdd(r, linScale(Restrict(side, guards), t.K), false)
+				rs := Restrict(side, guards)
+				if rs.W != l.W {
+					// a narrower quantity inside a wider form stands for its (zero-extended)
+					// value: re-read it at the outer width when it cannot wrap at its own
+					if _, hi, ok := rs.rangeNoWrap(); ok && hi <= mask(rs.W) && rs.W < l.W {
+						rs = &Lin{W: l.W, C: rs.C, T: rs.T}
+					} else {
+						r = linAdd(r, &Lin{W: l.W, T: []LinTerm{t}}, false)
+						continue
+					}
+				}
+				r = linAdd(r, linScale(rs, t.K), false)
 				continue
 			}
 		}
